@@ -57,10 +57,7 @@ func (r serveRule) step(tc *traceClient, x *core.TSCtx, site ssa.Instruction, q,
 		return bad("C12.R1", "after-failure:"+ev, "event "+ev+" after the authentication / session step failed: the connection must end")
 	}
 	if ph == "failedE" {
-		if ev == "M:Z" {
-			return "failedZ"
-		}
-		return bad("C12.R1", "after-failure:"+ev, "event "+ev+" after the authentication / session step failed: the connection must end")
+		return bad("C12.R1", "after-failure:"+ev, "event "+ev+" after the authentication / session step failed and was reported: the connection must end (a ReadyForQuery here tells a client that was not admitted that the server is ready)")
 	}
 	if ph == "failedZ" {
 		return bad("C12.R1", "after-failure:"+ev, "event "+ev+" after the authentication / session step failed: the connection must end")
